@@ -107,6 +107,8 @@ impl Synchronizer {
                             .duration_since(UNIX_EPOCH)
                             .expect("Failed to measure time")
                             .as_millis();
+                        #[cfg(hotstuff_verif)]
+                        let now = { let _ = now; network::simnet::now_ms() };
 
                         let mut missing = Vec::new();
                         for digest in digests {
@@ -182,6 +184,8 @@ impl Synchronizer {
                         .duration_since(UNIX_EPOCH)
                         .expect("Failed to measure time")
                         .as_millis();
+                    #[cfg(hotstuff_verif)]
+                    let now = { let _ = now; network::simnet::now_ms() };
 
                     let mut retry = Vec::new();
                     for (digest, (_, _, timestamp)) in &self.pending {
